@@ -7,6 +7,14 @@
  *   B <tid> <Symbol> <Class>:<flags>…  bind tid to a library type object; the row is the declaration from the SOURCE TEXT
  *   S <tid> <Symbol> <Class>:<flags>…  same for a type declared statically in this file (white-box dumps enabled)
  *   T <tid> <name> <cls>:<flags>…      create a run-time type: new_raw_with(Type, (name, size, inst…)); flags = member non-NULL
+ *   N <tid> <mode> <name> <size> <cls>:<flags>…   create a run-time type through the public API, mode =
+ *                                      raw   new_raw_with(Type, …)          root  new_root_with(Type, …)      gc  new_with(Type, …)
+ *                                      alloc alloc_raw(Type) then construct_with(T, …)
+ *                                      junk  construct_with on caller-provided storage whose every word holds junk
+ *                                            (cache words: a decoy instance; all cells: decoy triples with live-looking names)
+ *   W <tid> <name> <size> <cls>:<flags>…   re-construct the live run-time type IN PLACE: destruct(T); construct_with(T, …)
+ *   X <tid>                            delete the run-time type (del_raw / del_root / del according to how it was made)
+ *   Y <tid> copy|assign                copy(T) / assign(T, T): Type objects refuse both with ValueError and stay as they are
  *   R <tid>                            white-box reset: cache words and memoised class pointers := NULL
  *   I|P <tid> <cls>   M|Q <tid> <cls> <k>     type_instance | type_implements | type_method_at_offset | type_implements_method_at_offset
  *   i|p <tid> <cls>   m|q <tid> <cls> <k>     instance | implements | method_at_offset | implements_method_at_offset on an object of type tid
@@ -16,10 +24,14 @@
  *   H <tid> <nthreads> <rounds> <cls>… threads doing first lookups on cold caches, repeatedly
  *   D <tid>                            dump
  * Observations: results as `#<index of the triple whose inst was returned>` | NULL | exception name; for S/T types followed by the
- * canonical dump of the concrete record `c=<slot>:<index>,… m=<index>:<class token>,… h=<header type word set>`.
+ * canonical dump of the concrete record `c=<slot>:<index>,… m=<index>:<class token>,… h=<header type word set>`; N and W add
+ * `z=<number of non-NULL words between the terminator triple and the end of the storage>`.
  * Direct oracle (X lines), independent of the Lean model AND of Type.c's lookup code: the declared row from the source text and a
  * raw scan of the record by class name (own layout constants), member words read raw, exceptions, a call counter in every
- * probe member, the cache/memo invariant after every op. */
+ * probe member, the cache/memo invariant after every op.  The declared row kept per type is the declaration CURRENTLY in
+ * force: W replaces it (a refused W keeps it), so every lookup is compared with the instance list of the last successful
+ * construction; after every successful construction all cache words and memoised class pointers must be NULL and the
+ * __Name/__Size cells must hold the arguments; a refused construction must leave every word of the storage as it was. */
 #include "common.h"
 #include <dlfcn.h>
 #include <pthread.h>
@@ -85,6 +97,9 @@ typedef struct {
   Cell* cells;          /* run-time types: the instance objects */
   char* tname;
   ObjBlk* obj;          /* an object whose header says it is of this type */
+  int how;              /* run-time types: 0 new_raw_with, 1 new_root_with, 2 new_with, 3 alloc_raw + construct_with, 4 junk storage */
+  long tsize;           /* run-time types: the size argument */
+  int gcslot;           /* mode gc: index of the stack slot that keeps the type reachable for the collector */
 } TH;
 static TH th[MAXT];
 
@@ -162,6 +177,57 @@ static void white_reset(var T) {
   for (struct Type* t = raw_first(T); t->name; t++) t->cls = NULL;
 }
 
+/* ---- life cycle of run-time types ---- */
+enum { RAW_CELLS = RAW_FIRST + 256 + 1, MAXGC = 64 };      /* cells of the storage Type_Alloc reserves (own constant) */
+static var* gckeep = NULL;                                  /* stack slots of main: GC-managed types stay reachable */
+static Cell decoy_cell;
+static const char* junk_names[12] = { "Hash", "Len", "Size", "Show", "Cmp", "New", "Iter", "Get", "Cast", "Alloc", "C_Str", "Push" };
+
+static var decoy_inst(void) {
+  if (!decoy_cell.h.type) { header_init(&decoy_cell.h, Hash, AllocStatic); for (int k = 0; k < CELLW; k++) decoy_cell.m[k] = (var)probe_member; }
+  return decoy_cell.m;
+}
+/* caller-provided storage of the size Type_Alloc uses, every word junk: the cache words hold a decoy instance, every cell a
+   decoy triple with the name of a real class (a missing terminator or an uncleared cache word then answers with the decoy) */
+static var junk_storage(void) {
+  struct Header* head = malloc(sizeof(struct Header) + sizeof(struct Type) * RAW_CELLS);
+  var self = header_init(head, Type, AllocHeap);
+  var* w = self;
+  for (int i = 0; i < RAW_CACHE_WORDS; i++) w[i] = decoy_inst();
+  for (int j = RAW_CACHE_WORDS / 3; j < RAW_CELLS; j++) {
+    w[3*j] = (j % 2) ? resolve_sym(junk_names[j % 12]) : NULL; w[3*j+1] = (var)junk_names[j % 12]; w[3*j+2] = decoy_inst();
+  }
+  return self;
+}
+static int raw_tail_nonnull(var T) {
+  int c = 0; var* w = T;
+  for (size_t i = 3 * (size_t)(RAW_FIRST + raw_count(T) + 1); i < 3 * (size_t)RAW_CELLS; i++) if (w[i]) c++;
+  return c;
+}
+/* after a successful construction: every cache word and every memoised class pointer NULL, __Name/__Size cells as given.
+   A cache word that is not NULL is first shown for what it does to the property: the oracle itself looks the slot's class
+   up (type_instance) and compares the answer with the declaration in force (only on this failing path: the lookup may
+   write cache/memo words, which the model does not mirror). */
+static int row_first_for(TH* h, var cls);
+static int check_fresh(TH* h, var T, const char* name, long size, size_t line) {
+  int ok = 1;
+  for (int i = 0; i < RAW_CACHE_WORDS; i++) {
+    if (!((var*)T)[i]) continue;
+    for (int g = 0; g < ngslot; g++) {
+      if (gslot[g].idx != i) continue;
+      var cls = resolve_sym(gslot[g].name); if (!cls) continue;
+      var got = type_instance(T, cls); int er = row_first_for(h, cls);
+      if (raw_index(T, got) != er) X("sig=disp-instance-decl line=%zu what=right after its construction type_instance(%s, %s) gave %s, the declaration in force has its first %s triple at %d (cache word %d was not cleared)", line, name, gslot[g].name, got ? (raw_index(T, got) >= 0 ? "another triple" : "an instance the type does not declare") : "NULL", gslot[g].name, er, i);
+    }
+    X("sig=disp-construct-state line=%zu what=cache word %d of the just constructed type %s is not NULL", line, i, name); ok = 0;
+  }
+  for (struct Type* t = raw_first(T); t->name; t++) if (t->cls) { X("sig=disp-construct-state line=%zu what=triple %s of the just constructed type %s carries a memoised class", line, (char*)t->name, name); ok = 0; }
+  struct Type* b = (struct Type*)T + RAW_NAME_ENTRY;
+  if (!b[0].name || strcmp((char*)b[0].name, "__Name") != 0 || !b[0].inst || strcmp((char*)b[0].inst, name) != 0) { X("sig=disp-construct-state line=%zu what=the __Name cell of the just constructed type %s is wrong", line, name); ok = 0; }
+  if (!b[1].name || strcmp((char*)b[1].name, "__Size") != 0 || b[1].inst != (var)(uintptr_t)size) { X("sig=disp-construct-state line=%zu what=the __Size cell of the just constructed type %s is wrong", line, name); ok = 0; }
+  return ok;
+}
+
 /* split a line into tokens (in place) */
 static int split(char* l, char** tok, int max) {
   int n = 0; char* p = l;
@@ -170,7 +236,7 @@ static int split(char* l, char** tok, int max) {
 }
 
 static void free_type(TH* h) {
-  if (h->kind == 3) { free(h->cells); /* the type object itself is kept: memoised pointers elsewhere may name it as a class */ }
+  /* run-time types: the type object and its instance cells are kept (a type abandoned by `T`/`N` on a live tid stays a valid object) */
   for (int i = 0; i < h->n; i++) { free(h->rname[i]); free(h->rflags[i]); }
   free(h->rname); free(h->rflags); free(h->obj); free(h->tname);
   memset(h, 0, sizeof *h);
@@ -208,6 +274,31 @@ static int record_matches(TH* h, size_t line, int classnames_are_tokens) {
     }
   }
   return ok;
+}
+
+/* build the instance cells of h's row and run one construction. how: 0 new_raw_with, 1 new_root_with, 2 new_with,
+   3 alloc_raw + construct_with, 4 construct_with on junk storage, 5 destruct + construct_with IN PLACE on T. */
+static var construct_type(int how, var T, TH* h, Cell* cells, const char* name, long size, var* excp) {
+  var* items = calloc(h->n + 3, sizeof(var));
+  items[0] = $S((char*)name); items[1] = $I(size);
+  for (int i = 0; i < h->n; i++) {
+    var ins = header_init(&cells[i].h, resolve_cls(h->rname[i]), AllocStatic);
+    for (size_t k = 0; k < strlen(h->rflags[i]); k++) cells[i].m[k] = h->rflags[i][k] == '1' ? (var)probe_member : NULL;
+    items[2 + i] = ins;
+  }
+  items[2 + h->n] = Terminal;
+  var exc = NULL; var volatile R = T; var args = $(Tuple, items);
+  switch (how) {
+  case 0: V_TRY(exc, R = new_raw_with(Type, args)); break;
+  case 1: V_TRY(exc, R = new_root_with(Type, args)); break;
+  case 2: V_TRY(exc, R = new_with(Type, args)); break;
+  case 3: R = alloc_raw(Type); V_TRY(exc, construct_with(R, args)); if (exc) { dealloc_raw(R); R = NULL; } break;
+  case 4: R = junk_storage(); V_TRY(exc, construct_with(R, args)); if (exc) { free((char*)R - sizeof(struct Header)); R = NULL; } break;
+  default: V_TRY(exc, { destruct(R); construct_with(R, args); }); break;
+  }
+  free(items);
+  *excp = exc;
+  return exc && how != 5 ? NULL : R;
 }
 
 static void fmt_res(char* buf, size_t n, var T, var exc, var got) {
@@ -248,6 +339,8 @@ static void* thread_main(void* p) {
 }
 
 int main(int argc, char** argv) {
+  var volatile gcslots[MAXGC]; for (int g = 0; g < MAXGC; g++) gcslots[g] = NULL;
+  gckeep = (var*)gcslots;
   v_init();
   if (argc < 2) { fprintf(stderr, "usage: h_disp <opfile>\n"); return 2; }
   size_t n; char** lines = v_read_lines(argv[1], &n);
@@ -317,13 +410,101 @@ int main(int argc, char** argv) {
       free(items);
       if (exc) {
         if (exc != OutOfMemoryError || h->n <= 256) X("sig=disp-typenew line=%zu what=creating a type with %d instances raised %s", line, h->n, v_exc_name(exc));
-        O("T %d n=%d %s", tid, h->n, v_exc_name(exc)); free_type(h); break;
+        O("T %d n=%d %s", tid, h->n, v_exc_name(exc)); free(h->cells); free_type(h); break;
       }
       if (h->n > 256) X("sig=disp-typenew line=%zu what=a type with %d instances (> CELLO_MAX_INSTANCES) was created", line, h->n);
-      h->type = T; make_obj(h);
+      h->type = T; h->how = 0; h->tsize = 0; make_obj(h);
       int ok = record_matches(h, line, 1);
       if (strcmp(raw_name(T), h->tname) != 0) { X("sig=disp-record line=%zu what=run-time type is named %s, wanted %s", line, raw_name(T), h->tname); ok = 0; }
+      if (!check_fresh(h, T, h->tname, 0, line)) ok = 0;
       O("T %d n=%d %s%s", tid, h->n, ok ? "ok" : "bad", dump(h, 1));
+      check_inv(h, line);
+    } break;
+    case 'N': case 'W': {
+      /* N <tid> <mode> <name> <size> row…   |   W <tid> <name> <size> row… */
+      int isN = op[0] == 'N'; int first = isN ? 5 : 4;
+      if (nt < first || nt - first > MAXROW) { O("bad-op"); break; }
+      int tid = atoi(tok[1]); if (tid < 0 || tid >= MAXT) { O("bad-op"); break; }
+      int how = 5;
+      if (isN) {
+        const char* m = tok[2];
+        how = !strcmp(m, "raw") ? 0 : !strcmp(m, "root") ? 1 : !strcmp(m, "gc") ? 2 : !strcmp(m, "alloc") ? 3 : !strcmp(m, "junk") ? 4 : -1;
+        if (how < 0) { O("bad-op"); break; }
+      } else if (th[tid].kind != 3) { O("bad-op"); break; }
+      const char* name = tok[first - 2]; long size = atol(tok[first - 1]);
+      if (size < 0 || size > 1000000 || strspn(tok[first - 1], "0123456789") != strlen(tok[first - 1])) { O("bad-op"); break; }
+      TH nh; memset(&nh, 0, sizeof nh);
+      if (!parse_row(&nh, tok + first, nt - first)) { free_type(&nh); O("bad-op"); break; }
+      int bad = 0; for (int i = 0; i < nh.n; i++) if (!resolve_cls(nh.rname[i])) bad = 1;
+      int gcslot = -1;
+      if (how == 2) { for (int g = 0; g < MAXGC; g++) if (!gckeep[g]) { gcslot = g; break; } if (gcslot < 0) bad = 1; }
+      if (bad) { free_type(&nh); O("bad-op"); break; }
+      TH* h = &th[tid];
+      Cell* cells = calloc(nh.n + 1, sizeof(Cell));
+      char* tname = strdup(name);
+      if (isN) {
+        free_type(h);
+        var T = construct_type(how, NULL, &nh, cells, tname, size, &exc);
+        if (exc) {
+          if (exc != OutOfMemoryError || nh.n <= 256) X("sig=disp-typenew line=%zu what=creating a type with %d instances raised %s", line, nh.n, v_exc_name(exc));
+          O("N %d n=%d %s", tid, nh.n, v_exc_name(exc)); free_type(&nh); free(cells); free(tname); break;
+        }
+        if (nh.n > 256) X("sig=disp-typenew line=%zu what=a type with %d instances (> CELLO_MAX_INSTANCES) was created", line, nh.n);
+        *h = nh; h->kind = 3; h->type = T; h->cells = cells; h->tname = tname; h->how = how; h->tsize = size; h->gcslot = gcslot;
+        if (how == 2) gckeep[gcslot] = T;
+        make_obj(h);
+      } else {
+        var T = h->type;
+        size_t bytes = sizeof(struct Type) * RAW_CELLS; void* snap = malloc(bytes); memcpy(snap, T, bytes);
+        int hdr0 = raw_hdr(T);
+        construct_type(5, T, &nh, cells, tname, size, &exc);
+        if (exc) {
+          /* refused: the declaration in force stays the old one and no word of the storage may have changed */
+          if (exc != OutOfMemoryError || nh.n <= 256) X("sig=disp-typenew line=%zu what=re-constructing a type with %d instances raised %s", line, nh.n, v_exc_name(exc));
+          if (memcmp(snap, T, bytes) != 0 || raw_hdr(T) != hdr0) X("sig=disp-construct-refused line=%zu what=a refused re-construction of %s changed the type object", line, raw_name(T));
+          int okr = record_matches(h, line, 1);
+          O("W %d n=%d %s %s%s z=%d", tid, nh.n, v_exc_name(exc), okr ? "ok" : "bad", dump(h, 1), raw_tail_nonnull(T));
+          check_inv(h, line);
+          free(snap); free_type(&nh); free(cells); free(tname); break;
+        }
+        free(snap);
+        if (nh.n > 256) X("sig=disp-typenew line=%zu what=a type was re-constructed with %d instances (> CELLO_MAX_INSTANCES)", line, nh.n);
+        /* the new declaration is in force; the old instance cells stay allocated (a stale cache word must not dangle) */
+        for (int i = 0; i < h->n; i++) { free(h->rname[i]); free(h->rflags[i]); }
+        free(h->rname); free(h->rflags); free(h->tname);
+        h->n = nh.n; h->rname = nh.rname; h->rflags = nh.rflags; h->cells = cells; h->tname = tname; h->tsize = size;
+      }
+      var T = h->type;
+      int ok = record_matches(h, line, 1);
+      if (strcmp(raw_name(T), h->tname) != 0) { X("sig=disp-record line=%zu what=run-time type is named %s, wanted %s", line, raw_name(T), h->tname); ok = 0; }
+      if (!check_fresh(h, T, h->tname, h->tsize, line)) ok = 0;
+      if (!raw_hdr(T)) { X("sig=disp-construct-state line=%zu what=the header of the run-time type %s does not name Type", line, h->tname); ok = 0; }
+      O("%s %d n=%d %s%s z=%d", op, tid, h->n, ok ? "ok" : "bad", dump(h, 1), raw_tail_nonnull(T));
+      check_inv(h, line);
+    } break;
+    case 'X': {
+      if (nt != 2) { O("bad-op"); break; }
+      int tid = atoi(tok[1]); if (tid < 0 || tid >= MAXT || th[tid].kind != 3) { O("bad-op"); break; }
+      TH* h = &th[tid]; var T = h->type;
+      if (h->how == 1) V_TRY(exc, del_root(T)); else if (h->how == 2) { V_TRY(exc, del(T)); gckeep[h->gcslot] = NULL; } else V_TRY(exc, del_raw(T));
+      if (exc) X("sig=disp-del line=%zu what=deleting the run-time type raised %s", line, v_exc_name(exc));
+      free(h->cells); free_type(h);
+      O("X %d %s", tid, v_exc_name(exc));
+    } break;
+    case 'Y': {
+      if (nt != 3) { O("bad-op"); break; }
+      int tid = atoi(tok[1]); if (tid < 0 || tid >= MAXT || !th[tid].kind) { O("bad-op"); break; }
+      int iscopy = !strcmp(tok[2], "copy"); if (!iscopy && strcmp(tok[2], "assign") != 0) { O("bad-op"); break; }
+      if (!th[0].kind || th[0].type != Type) { O("bad-op"); break; }
+      TH* h = &th[tid]; var T = h->type; var got = NULL;
+      size_t bytes = h->kind == 3 ? sizeof(struct Type) * RAW_CELLS : 0; void* snap = NULL;
+      if (bytes) { snap = malloc(bytes); memcpy(snap, T, bytes); }
+      if (iscopy) V_TRY(exc, got = copy(T)); else V_TRY(exc, got = assign(T, T));
+      (void)got;
+      if (exc != ValueError) X("sig=disp-type-%s line=%zu what=%s of the type object %s gave %s instead of ValueError", tok[2], line, tok[2], raw_name(T), v_exc_name(exc));
+      if (bytes && memcmp(snap, T, bytes) != 0) X("sig=disp-type-%s line=%zu what=the refused %s changed the type object %s", tok[2], line, tok[2], raw_name(T));
+      free(snap);
+      O("Y %s %s%s", tok[2], v_exc_name(exc), dump(h, 1));
       check_inv(h, line);
     } break;
     case 'R': case 'D': {
